@@ -348,7 +348,7 @@ def run(ctx):
     run_corpus(ctx, collect)
     n_worlds = ctx.n(8, 40)
     docs_per_world = ctx.n(3, 6)
-    budget = 26 if ctx.tier == "quick" else 240
+    budget = 22 if ctx.tier == "quick" else 240
     for i in range(n_worlds):
         if ctx.time_left() < (60 - budget if ctx.tier == "quick" else 600 - budget):
             ctx.notes.append("direct oracle stopped after %d schemas (time)" % i)
